@@ -29,6 +29,11 @@ FIXED = [
     'mult=1;sets=ctsH.4.0;throws=;d1=newpool2,new1,schedfq1.1,trywait1.1,wait1,del1,delpool;b1=sched1.2,sched1.3;b2=sched1.4',
 ]
 RESIZE = [
+    # directed: the producer is held at its first ring push (after it validated the ring count against the old pool) while
+    # the resizer shrinks the pool; the task then lands in a ring no worker owns - wait() must still find it
+    'hold=TpPushRing;mult=32;sets=ts.4.0;throws=;d1=newpool2,new1,bulk1.1.2,wait1,sync,del1,delpool;d2=await1,resize1',
+    'hold=TpPushRing;mult=32;sets=ctsL.4.0;throws=;d1=newpool3,new1,bulk1.1.3,wait1,bulk1.4.1,wait1,sync,del1,delpool;d2=await1,resize1,resize2',
+    'hold=TpPushRing;mult=32;sets=ts.4.0;throws=;d1=newpool3,new1,bulk1.1.2,trywait1.4,wait1,sync,del1,delpool;d2=await1,resize0',
     # count ~ numThreads: TaskSetBase::scheduleBulkImpl takes the ring fast path; d2 resizes meanwhile
     'mult=32;sets=ts.4.0;throws=;d1=newpool2,new1,bulk1.1.2,bulk1.3.2,wait1,bulk1.5.2,wait1,sync,del1,delpool;d2=await1,resize1,resize3',
     'mult=32;sets=ctsL.4.0;throws=;d1=newpool3,new1,bulk1.1.3,bulk1.4.2,wait1,bulk1.6.3,wait1,sync,del1,delpool;d2=await1,resize2,resize0',
